@@ -4,3 +4,4 @@ pub mod tms;
 pub mod kb;
 pub mod watermark;
 pub mod undo;
+pub mod indexes;
